@@ -189,6 +189,22 @@ Section EvalProofs.
   Theorem no_index_exact p v md : matches p = Some v -> exec md None v = eval p.
   Proof. intros H. destruct md; cbn [Model.exec]; apply match_roundtrip; exact H. Qed.
 
+  (* exact mode never consults the provider, whatever it is capable of, and answers with the replaced plan *)
+  Theorem exact_never_consults p v provider : matches p = Some v ->
+    fst (try_index row Exact provider v) = false /\
+    exec_p row scan_rows keyval proj other Exact provider v = eval p.
+  Proof. intros H. split; [reflexivity|]. unfold exec_p. cbn. apply match_roundtrip; exact H. Qed.
+  (* the provider is consulted only in Indexed mode, and a declining provider still gets the exact answer *)
+  Theorem consulted_only_indexed md provider v : fst (try_index row md provider v) = true -> md = Indexed.
+  Proof. destruct md, provider; cbn; congruence. Qed.
+  Theorem declining_provider_exact p v md provider : matches p = Some v ->
+    (forall scan_knn, provider = Some scan_knn -> scan_knn v = None) ->
+    exec_p row scan_rows keyval proj other md provider v = eval p.
+  Proof.
+    intros H D. unfold exec_p. destruct md, provider as [f|]; cbn; try (apply match_roundtrip; exact H).
+    rewrite (D f eq_refl). apply match_roundtrip; exact H.
+  Qed.
+
   (* ---- ties: the key sequence does not depend on how the sort breaks ties ---- *)
   Lemma key_le1_kle k a b : key_le1 k a b = kle k (keyval k a) (keyval k b).
   Proof. reflexivity. Qed.
